@@ -203,7 +203,7 @@ def orbit_bound(sg, tier):
 def run_group(arg):
     sg, tier = arg
     occs = S.occupations(sg, orbit_bound(sg, tier), S.ELEMENTS)
-    return sg, explore(make_fn(sg, occs), f"H12:sg{sg}", workers=1, timeout_ms=20000, budget_s=3000), len(occs)
+    return sg, explore(make_fn(sg, occs), f"H12:sg{sg}", workers=1, timeout_ms=20000, budget_s=3000, precheck=True), len(occs)
 
 
 def main(tier, seed, only=None):
